@@ -391,6 +391,22 @@ def scn_srv(params):
                 if mc.login_reply is None:
                     out["violations"].append(("C19:server:correct-response-rejected", "the server answered %r to the documented response for slot %d, challenge 0x%08x (%d sessions used that slot before)"
                                               % (r, mc.userid, mc.challenge, len(old)), wit))
+                if mc.login_reply is not None and rng.random() < 0.5:
+                    # the accepted login query comes again with everything the same (record type, cache-miss counter) except the
+                    # response, which is wrong: a repeat of an accepted login is still judged by its 16 bytes
+                    keep_reply = mc.login_reply
+                    mc.login_reply = None
+                    mc.cmc = (mc.cmc - 1) & 0xFFFF
+                    bad = bytearray(oracle(pw, mc.challenge))
+                    bad[rng.randrange(16)] ^= 1 << rng.randrange(8)
+                    r2 = mc.login(digest=bytes(bad) if rng.random() < 0.6 else bytes(rng.getrandbits(8) for _ in range(16)))
+                    out["stats"]["srv_logins_wrong"] += 1
+                    out["stats"]["srv_wrong_repeats_of_an_accepted_login"] = out["stats"].get("srv_wrong_repeats_of_an_accepted_login", 0) + 1
+                    out["evaluations"] += 1
+                    if mc.login_reply is not None:
+                        out["violations"].append(("C19:server:wrong-response-accepted", "after accepting the login of slot %d the server accepted the same login query again with a wrong response (same cache-miss counter, challenge 0x%08x)"
+                                                  % (mc.userid, mc.challenge), wit))
+                    mc.login_reply = keep_reply
                 old.append(mc.challenge)
                 batch.append(mc)
                 if mc.login_reply is not None and rng.random() < 0.5:
